@@ -41,7 +41,17 @@ func (pid *PeerID) UnmarshalText(data []byte) error {
 	if len(data) != enc.EncodedLen(len(pid)) {
 		return errors.New("data is wrong length")
 	}
-	enc.Decode(pid[:], data)
+	// Strict rejects non-zero trailing bits, so that only the canonical text of an id is accepted.
+	// The decoder skips CR and LF, hence the check on the number of bytes decoded.
+	var x PeerID
+	n, err := enc.Strict().Decode(x[:], data)
+	if err != nil {
+		return err
+	}
+	if n != len(x) {
+		return errors.New("data is not a valid PeerID")
+	}
+	*pid = x
 	return nil
 }
 
